@@ -964,6 +964,8 @@ func verifCycleScenarios(rnd *verifutil.Rand) []verifCase {
 		{label: "hardlink to itself", ents: []verifEnt{r("c", 4), l("a", "./a")}, prio: []string{"c", "a"}},
 		{label: "hardlink to its own child", ents: []verifEnt{l("d", "d/x"), r("d/x", 4)}, prio: []string{"d/x"}},
 		{label: "cycle of three below a directory", ents: []verifEnt{d("x/"), l("x/a", "x/b"), l("x/b", "/x/c"), l("x/c", "./x/a"), r("f", 3)}, prio: []string{"f", "x/b"}},
+		{label: "missing parent directory found before the cycle", ents: []verifEnt{l("d/x", "d/y"), l("d/y", "d/x"), r("c", 4)}, prio: []string{"d/x", "c"}},
+		{label: "cycle behind a listed path that is placed first", ents: []verifEnt{r("c", 4), l("a", "b"), l("b", "a")}, prio: []string{"c", "nothere", "b"}},
 		{label: "cycle reached through a chain", ents: []verifEnt{r("f", 3), l("l1", "l2"), l("l2", "l3"), l("l3", "l2")}, prio: []string{"l1"}},
 	}
 	for len(cs) < verifutil.EnvInt("VERIF_NCYCLE", 14) {
@@ -971,7 +973,13 @@ func verifCycleScenarios(rnd *verifutil.Rand) []verifCase {
 		if len(c.ents) > 0 {
 			// close a cycle through a fresh pair of hardlinks and list one of them
 			c.ents = append(c.ents, l("cyc1", "cyc2"), l("cyc2", "cyc1"))
-			c.prio = append(c.prio, "cyc2")
+			switch rnd.Intn(4) {
+			case 0: // the cycle is in the tar but no listed path needs it
+			case 1:
+				c.prio = append([]string{"./cyc1"}, c.prio...)
+			default:
+				c.prio = append(c.prio, "cyc2")
+			}
 		}
 		if verifNewWorld(c.ents, false).hasCycle() {
 			c.label = "random tar with a cycle"
